@@ -21,9 +21,49 @@ def _copy_tree(dst):
     return d
 
 
+def apply_patch(patchfile, dst):
+    """Apply a unified diff (paths src/spake2/...) to the scratch copy.  -> None or the reason it does not apply."""
+    p = subprocess.run(["patch", "-p1", "-s", "-f", "--no-backup-if-mismatch", "-d", dst, "-i", patchfile],
+                       stdout=subprocess.PIPE, stderr=subprocess.STDOUT, universal_newlines=True)
+    if p.returncode != 0:
+        return "patch %s does not apply to the current tree: %s" % (os.path.relpath(patchfile, VERIF), p.stdout.strip().splitlines()[-1:] or "")
+    for dp, dn, fn in os.walk(os.path.join(dst, "src", "spake2")):
+        for f in fn:
+            if f.endswith(".py"):
+                try:
+                    compile(open(os.path.join(dp, f)).read(), f, "exec")
+                except SyntaxError as e:
+                    return "patched tree does not compile: %s" % e
+    return None
+
+
+def patch_variants():
+    """The independently written changes kept under seeded/ (each breaks the property named in its
+    meta.json) and the behaviour-preserving refactorings under seeded_neutral/ (must stay silent for
+    every property), as self-test variants."""
+    import glob
+    out = []
+    for d in sorted(glob.glob(os.path.join(VERIF, "seeded", "*"))):
+        pf, mf = os.path.join(d, "patch.diff"), os.path.join(d, "meta.json")
+        if os.path.exists(pf) and os.path.exists(mf):
+            m = json.load(open(mf))
+            out.append({"id": "seed-" + os.path.basename(d), "kind": "break", "breaks": [m["breaks_property"]], "edits": [], "patch": pf,
+                        "silent": [], "note": m.get("needs_to_manifest", "")})
+    for d in sorted(glob.glob(os.path.join(VERIF, "seeded_neutral", "*"))):
+        pf = os.path.join(d, "patch.diff")
+        if os.path.exists(pf):
+            out.append({"id": "refactor-" + os.path.basename(d), "kind": "neutral", "props": [], "edits": [], "patch": pf})
+    return out
+
+
 def apply_variant(v, dst):
     """-> None if applied, else reason for skipping."""
     pk = _copy_tree(dst)
+    base = v.get("patch") or (os.path.join(VERIF, v["base"], "patch.diff") if v.get("base") else None)
+    if base:
+        why = apply_patch(base, dst)
+        if why:
+            return why
     for (rel, old, new) in v["edits"]:
         p = os.path.join(pk, rel)
         if not os.path.exists(p):
@@ -106,7 +146,7 @@ def run_variant(v, pids):
 def relevant(pid):
     from .corpus import CORPUS
     out = []
-    for v in CORPUS:
+    for v in list(CORPUS) + patch_variants():
         if v["kind"] == "break" and pid in v["breaks"]:
             out.append(v)
         elif v["kind"] == "neutral" and (not v.get("props") or pid in v["props"]):
@@ -173,7 +213,7 @@ def matrix(pids=None, only=None, jobs=16):
     from .corpus import CORPUS
     from .main import PROPS
     pids = pids or sorted(p for p in PROPS if os.path.exists(os.path.join(VERIF, "sa", "rules", PROPS[p][0] + ".py")))
-    vs = [v for v in CORPUS if not only or v["id"] in only or any(o in v["id"] for o in only)]
+    vs = [v for v in list(CORPUS) + patch_variants() if not only or v["id"] in only or any(o in v["id"] for o in only)]
     with concurrent.futures.ThreadPoolExecutor(max_workers=jobs) as ex:
         results = list(ex.map(lambda v: run_variant(v, pids), vs))
     ok = True
